@@ -18,6 +18,7 @@ import mir
 import mirx
 from mirx import Adt, Interp, Ref, Slice, Sym, SymB, conj_all
 from mir import Unsupported, bvconst
+from mirx import State
 
 VERIF = os.path.dirname(os.path.dirname(os.path.abspath(__file__)))
 WORK = os.path.join(VERIF, ".work")
@@ -71,17 +72,20 @@ def ref_encode_cases(data, a, b):
     def chunk(pos, first, maxsz, conds, out):
         # scan for the end of this chunk
         def scan(size, conds):
-            if not (size < maxsz and pos + size < n):
-                finish(size, False, conds)
-                return
-            s = stuff_at(pos + size) if size + 2 <= maxsz else False
-            if s is False:
-                scan(size + 1, conds)
-            elif s is True:
-                finish(size, True, conds)
-            else:
+            while True:
+                if not (size < maxsz and pos + size < n):
+                    finish(size, False, conds)
+                    return
+                s = stuff_at(pos + size) if size + 2 <= maxsz else False
+                if s is False:
+                    size += 1
+                    continue
+                if s is True:
+                    finish(size, True, conds)
+                    return
                 finish(size, True, conds + [s])
-                scan(size + 1, conds + [NOT(s)])
+                conds = conds + [NOT(s)]
+                size += 1
 
         def finish(size, by_stuff, conds):
             hdr = [size % RADIX] if first else [size % RADIX, size // RADIX]
@@ -114,6 +118,9 @@ def ref_decode_cases(enc, a, b):
             c = eqk(k)
             if c is False:
                 continue
+            if c is True:
+                nxt(pos + k, k < limit, out + list(enc[pos:pos + k]), conds)
+                return
             o = out + list(enc[pos:pos + k])
             nxt(pos + k, k < limit, o, conds + ([c] if c is not True else []))
         # announced size within the limit but more than what is left: cut short
@@ -148,6 +155,10 @@ def ref_decode_cases(enc, a, b):
         if ok1 is False:
             return
         c1 = c0 + ([ok1] if ok1 is not True else [])
+        if isinstance(d0, int) and isinstance(d1, int):
+            sz = d0 + RADIX * d1
+            sized(pos + 2, (lambda k: sz == k, sz > b, lambda m: m < sz <= b), b, False, o, c1)
+            return
         size = "(bvadd ((_ zero_extend 24) %s) (bvmul ((_ zero_extend 24) %s) %s))" % (term8(d0), term8(d1), bvconst(RADIX, 32))
         sized(pos + 2, (lambda k: "(= %s %s)" % (size, bvconst(k, 32)), "(bvugt %s %s)" % (size, bvconst(b, 32)),
                         lambda m: "(and (bvugt %s %s) (bvule %s %s))" % (size, bvconst(m, 32), size, bvconst(b, 32))), b, False, o, c1)
@@ -158,6 +169,9 @@ def ref_decode_cases(enc, a, b):
         return v >= k
 
     h = enc[0]
+    if isinstance(h, int):
+        sized(1, (lambda k: h == k, h > a, lambda m: m < h <= a), a, True, [], [])
+        return cases
     ht = "((_ zero_extend 24) %s)" % term8(h)
     sized(1, (lambda k: "(= %s %s)" % (ht, bvconst(k, 32)), "(bvugt %s %s)" % (ht, bvconst(a, 32)),
               lambda m: "(and (bvugt %s %s) (bvule %s %s))" % (ht, bvconst(m, 32), ht, bvconst(a, 32))), a, True, [], [])
@@ -263,11 +277,15 @@ def run_encoder(mod, it, data, cuts, methods, limits):
     return out
 
 
-def run_decoder(mod, it, enc, cuts, methods, limits):
+def run_decoder(mod, it, enc, cuts, methods, limits, base_cond=None):
     params = Adt("Parameters", {"max_initial_size": limits[0], "max_subsequent_size": limits[1]})
     iov = Ref("iovec")
     new = find_body(mod, "decoder::", "new")
-    res = it.call(new, [])
+    base = None
+    if base_cond:
+        base = State()
+        base.cond = list(base_cond)
+    res = it.call(new, [], base=base)
     states = [(r.state, r.value) for r in res if r.kind == "return"]
     pieces = []
     lo = 0
@@ -397,11 +415,11 @@ class CodecJob:
                 npaths += paths
                 if sample and len(samples) < 6:
                     samples.append(sample)
-                if violations:
+                if len(violations) >= 4:
                     break
         except Unsupported as e:
             return [_res(self.name, status="INCONCLUSIVE", reason="MIR construct outside the interpreter: %s" % e, wall=time.time() - t0)]
-        inconc = [o for o in obligations if o[1] not in ("unsat", "sat-expected")]
+        inconc = [o for o in obligations if o[1] not in ("unsat", "sat-expected", "sat")]
         status, reason = "PASS", ""
         if violations:
             status = "VIOLATION"
@@ -413,11 +431,19 @@ class CodecJob:
                  covers={"implementation paths enumerated": "SATISFIED" if npaths > 0 else "UNSATISFIABLE"},
                  obligations_detail=[{"obligation": o[0], "answer": o[1]} for o in obligations[:40]], paths=npaths, wall=time.time() - t0)
         if status == "VIOLATION":
-            v = violations[0]
-            r["signature"] = "codec " + v["desc"]
-            art = save_case(self.pid, self.name, v)
-            ok, detail = replay_case(art)
-            r["reproduced"], r["artifact"], r["detail"] = ok, art, detail + "; " + v["desc"]
+            # replay before reporting: the first counterexample that reproduces natively is the one reported
+            r["reproduced"], tried = False, []
+            for v in violations:
+                art = save_case(self.pid, self.name, v)
+                ok, detail = replay_case(art)
+                tried.append(detail)
+                if ok or "artifact" not in r:
+                    r["signature"] = "codec " + v["desc"]
+                    r["reproduced"], r["artifact"], r["detail"] = bool(ok), art, detail + "; " + v["desc"]
+                if ok:
+                    break
+            if not r["reproduced"]:
+                r["detail"] = "none of %d solver counterexamples reproduced natively: %s" % (len(tried), " | ".join(t[:160] for t in tried))
         return [r]
 
     def functions(self):
@@ -439,9 +465,16 @@ def save_case(pid, name, v):
     import re as _re
     d = os.path.join(VERIF, "replays" + kanirun.ALT, pid)
     os.makedirs(d, exist_ok=True)
-    path = os.path.join(d, _re.sub(r"\W+", "_", name + "-" + v["desc"])[:110] + ".json")
+    import hashlib
+    h = hashlib.sha1(json.dumps([v.get("input"), v.get("cuts"), v.get("methods"), v.get("limits")]).encode()).hexdigest()[:8]
+    path = os.path.join(d, _re.sub(r"\W+", "_", name + "-" + v["desc"])[:100] + "-" + h + ".json")
     json.dump(v, open(path, "w"), indent=1, default=str)
     return path
+
+
+def _short(xs):
+    xs = list(xs)
+    return repr(xs) if len(xs) <= 16 else "[%s, ... %d bytes ..., %s]" % (", ".join(map(str, xs[:8])), len(xs), ", ".join(map(str, xs[-6:])))
 
 
 def replay_case(art):
@@ -467,10 +500,16 @@ def replay_case(art):
     env = dict(os.environ)
     env["CARGO_NET_OFFLINE"] = "true"
     env["CARGO_TARGET_DIR"] = os.path.join(WORK, "target", "driver-hcobs" + kanirun.ALT)
-    flags = "--cfg woodpile_verif --cfg woodpile_verif_hcobs_limits"
-    env["RUSTFLAGS"] = flags
-    env["WOODPILE_VERIF_HCOBS_LIMITS"] = "%d,%d" % tuple(v["limits"])
-    args = [v["side"], ",".join(str(x) for x in v["input"]), ",".join(str(c) for c in v["cuts"]), ",".join(v["methods"])]
+    if tuple(v["limits"]) == PROD:
+        # production limits: the build users get, no limit-replacing hook
+        env["RUSTFLAGS"] = "--cfg woodpile_verif"
+        env.pop("WOODPILE_VERIF_HCOBS_LIMITS", None)
+    else:
+        env["RUSTFLAGS"] = "--cfg woodpile_verif --cfg woodpile_verif_hcobs_limits"
+        env["WOODPILE_VERIF_HCOBS_LIMITS"] = "%d,%d" % tuple(v["limits"])
+    inpath = art + ".input"
+    open(inpath, "w").write(",".join(str(x) for x in v["input"]))
+    args = [v["side"], "@" + inpath, ",".join(str(c) for c in v["cuts"]), ",".join(v["methods"])]
     p = subprocess.run(["cargo", "run", "--offline", "-q", "--"] + args, cwd=d, env=env, stdout=subprocess.PIPE, stderr=subprocess.STDOUT, text=True, timeout=900)
     out = p.stdout
     import re as _re
@@ -480,10 +519,12 @@ def replay_case(art):
     got_kind, got_bytes = m.group(1), [int(x) for x in (m.group(2) or "").split(",") if x.strip()]
     want_kind, want_bytes = v["expected"]["kind"], v["expected"].get("bytes") or []
     if got_kind == "PANIC":
-        return True, "native run panicked on input %r" % (v["input"],)
+        return True, "native run panicked on input %s" % _short(v["input"])
     if got_kind != want_kind or (got_kind == "ok" and got_bytes != want_bytes):
-        return True, "native %s(%r, cuts %r, %r) -> %s %r, the format says %s %r" % (v["side"], v["input"], v["cuts"], v["methods"], got_kind, got_bytes, want_kind, want_bytes)
-    return False, "native run agrees with the reference on %r" % (v["input"],)
+        if v["side"].startswith("anchors"):
+            return True, "native %s(%s, cuts %r, %r): the bytes exposed by the iovec changed once the source arena was gone (dangling)" % (v["side"], _short(v["input"]), v["cuts"], v["methods"])
+        return True, "native %s(%s, cuts %r, %r) -> %s %s, the format says %s %s" % (v["side"], _short(v["input"]), v["cuts"], v["methods"], got_kind, _short(got_bytes), want_kind, _short(want_bytes))
+    return False, "native run agrees with the reference on %s" % _short(v["input"])
 
 
 def replay(pid, art):
@@ -592,6 +633,14 @@ class EncoderVsReference(CodecJob):
                     c = AND(*(list(ic) + [byte_eq(iout[i], 0xFE), byte_eq(iout[i + 1], 0xFD)]))
                     if c is not False:
                         alts.append("true" if c is True else c)
+        # C09: bytes appended behind the earliest pending placeholder stay below one chunk + header; at most one placeholder pending
+        lag_limit = max(lim[0] + 1, lim[1] + 2)
+        for ic, kind, iout, ev in impl:
+            worst, most = max_lag(ev)
+            if worst > lag_limit or most > 1:
+                c = AND(*ic)
+                if c is not False:
+                    alts.append("true" if c is True else c)
         if alts:
             a, ans, model, path = q.ask("enc-" + tag, decls, [mir.disj(alts)], get_model=True)
         else:
@@ -663,3 +712,389 @@ class DecoderVsReference(CodecJob):
         ob.append(("decoder %s: the enumerated paths cover every input" % tag, a2))
         sample = {"config": cfg, "implementation_paths": len(impl), "reference_cases": len(ref)}
         return ob, viol, sample, len(impl)
+
+
+class RoundTrip(CodecJob):
+    """C01 at the state-machine level: the Decoder state machine run on every output of the Encoder state machine."""
+    name = "c01::decode_of_encode[mirx]"
+    pid = "C01"
+
+    def configs(self):
+        quick = self.tier == "quick"
+        lims = [(2, 3), (1, 2), (1, 1), (3, 5), (252, 64008)]
+        Ls = range(0, 6) if quick else range(0, 8)
+        for lim in (lims[:2] + lims[4:] if quick else lims):
+            for L in Ls:
+                for cut in (sorted({0, L // 2, L}) if quick else range(0, L + 1)):
+                    for ms in (("cb",) if quick else ("cb", "bc")):
+                        yield {"L": L, "cuts": [cut], "methods": METHOD_SETS[ms], "limits": lim}
+
+    def bounds(self):
+        return ("decode(encode(x)) == x through the real EncoderState and DecoderState MIR for EVERY byte string x of length L (quick 0..5, thorough 0..7), encoder input cut in two pieces "
+                "(copy / borrow), the encoded stream handed to the decoder cut at EVERY position (decode_copy / decode_borrow), tiny limits and production limits")
+
+    def check(self, mod, cfg, q):
+        L, cuts, methods, lim = cfg["L"], cfg["cuts"], cfg["methods"], cfg["limits"]
+        it, decls = make_interp(mod, max(L, 1))
+        ob, viol = [], []
+        npaths = 0
+        tag = "L%d-c%s-%s-%d_%d" % (L, "_".join(map(str, cuts)), "".join(m[0] for m in methods), lim[0], lim[1])
+        try:
+            data = sym_bytes(L)
+            enc = run_encoder(mod, it, data, cuts, methods, lim)
+            alts = []
+            meta = []
+            for ic, kind, iout, _ev in enc:
+                c = AND(*ic)
+                if c is False:
+                    continue
+                if kind != "ok" or iout is None:
+                    alts.append("true" if c is True else c)
+                    meta.append(("encoder " + kind, None))
+                    continue
+                n = len(iout)
+                dcuts = sorted({0, n // 2, n}) if self.tier == "quick" else range(0, n + 1)
+                for dc in dcuts:
+                    dec = run_decoder(mod, it, iout, [dc], ("borrow", "copy"), lim, base_cond=list(ic))
+                    npaths += len(dec)
+                    for dcnd, dkind, dout, _e in dec:
+                        cc = AND(*dcnd)
+                        if cc is False:
+                            continue
+                        bad = True if (dkind != "ok" or dout is None) else differ(dout, data)
+                        if bad is False:
+                            continue
+                        alts.append(AND(cc, None if bad is True else bad) if AND(cc, None if bad is True else bad) is not True else "true")
+                        meta.append((dkind, dc))
+        finally:
+            it.z3.close()
+        if alts:
+            a, ans, model, path = q.ask("rt-" + tag, decls, [mir.disj(alts)])
+        else:
+            a, model, path = "unsat", "", ""
+        ob.append(("round trip %s" % tag, a))
+        if a == "sat":
+            inp = concrete_bytes(model, L)
+            viol.append({"desc": "decode(encode(x)) != x", "side": "roundtrip", "input": inp, "cuts": cuts, "methods": list(methods), "limits": list(lim),
+                         "expected": {"kind": "ok", "bytes": inp}, "smt2": path})
+        return ob, viol, {"config": cfg, "encoder_paths": len(enc), "decoder_paths": npaths}, npaths + len(enc)
+
+
+# ---------------------------------------------------------------------------
+# public API level: hcobs::Encoder / hcobs::Decoder wrappers (lib.rs), PROD_PARAMS read from the MIR
+
+def _pieces(data, cuts):
+    out, lo = [], 0
+    for c in list(cuts) + [len(data)]:
+        out.append(data[lo:c])
+        lo = c
+    return out
+
+
+def _api_arg(piece, meth, i):
+    if meth == "anchored":
+        return Adt("AnchoredSlice", {"slice": Slice(piece, "anch%d" % i), "anchor": Adt("Anchor", {"id": i})})
+    return Slice(piece, "in%d" % i)
+
+
+API_FN = {"enc": {"copy": "encode_copy", "borrow": "encode", "anchored": "encode_anchored"},
+          "dec": {"copy": "decode_copy", "borrow": "decode", "anchored": "decode_anchored"}}
+
+
+_SMALL_COPY = {}
+
+
+def small_copy():
+    """owning_iovec's SMALL_COPY (OwningIovec::push copies slices of at most that many bytes), read from its MIR."""
+    if mir.REPO not in _SMALL_COPY:
+        import re as _re
+        text = mir.dump_mir("owning_iovec", os.path.join(WORK, "mir"))
+        m = _re.search(r"const (?:\w+::)*SMALL_COPY: usize = const (\d+)_usize;", text)
+        _SMALL_COPY[mir.REPO] = int(m.group(1)) if m else 0
+    return _SMALL_COPY[mir.REPO]
+
+
+def anchor_faults(events, upto_piece):
+    """Anchored pieces whose bytes were pushed by reference while the anchor was dropped / not handed to the iovec."""
+    bad = []
+    small = small_copy()
+    for i in range(upto_piece + 1):
+        tag = "anch%d" % i
+        borrowed = any((e[0] == "push_borrowed" and len(e[1]) > 0 or e[0] == "push" and len(e[1]) > small) and len(e) > 2 and e[2] == tag for e in events)
+        kept = any(e[0] == "push_anchor" and e[1] == i for e in events)
+        dropped = any(e[0] == "drop_anchor" and e[1] == i for e in events)
+        if borrowed and (dropped or not kept):
+            bad.append(i)
+    return bad
+
+
+def run_encoder_api(mod, it, data, cuts, methods, base_cond=None):
+    """Public hcobs::Encoder: new_from_iovec, encode / encode_copy / encode_anchored per piece, finish."""
+    base = State()
+    if base_cond:
+        base.cond = list(base_cond)
+    out = []
+    states = []
+    for r in it.call(it.api_body("Encoder", "new_from_iovec"), [Adt("OwningIovec", {})], base=base):
+        if r.kind == "return":
+            r.state.store["g:codec"] = r.value
+            states.append(r.state)
+        else:
+            out.append((r.state.cond, r.kind + ": " + r.note, None, r.state.events, []))
+    for i, (piece, meth) in enumerate(zip(_pieces(data, cuts), methods)):
+        fn = it.api_body("Encoder", API_FN["enc"][meth])
+        nxt = []
+        for st in states:
+            for r in it.call(fn, [Ref("g:codec"), _api_arg(piece, meth, i)], base=st):
+                if r.kind != "return":
+                    out.append((r.state.cond, r.kind + ": " + r.note, None, r.state.events, []))
+                    continue
+                f = anchor_faults(r.state.events, i)
+                if f:
+                    out.append((r.state.cond, "anchor", None, r.state.events, f))
+                else:
+                    nxt.append(r.state)
+        states = nxt
+    fin = it.api_body("Encoder", "finish")
+    for st in states:
+        for r in it.call(fin, [st.store["g:codec"]], base=st):
+            if r.kind == "return":
+                out.append((r.state.cond, "ok", output_of(r.state.events), r.state.events, []))
+            else:
+                out.append((r.state.cond, r.kind + ": " + r.note, None, r.state.events, []))
+    return out
+
+
+def run_decoder_api(mod, it, enc, cuts, methods, base_cond=None):
+    base = State()
+    if base_cond:
+        base.cond = list(base_cond)
+    out = []
+    states = []
+    for r in it.call(it.api_body("Decoder", "new_from_iovec"), [Adt("OwningIovec", {})], base=base):
+        if r.kind == "return":
+            r.state.store["g:codec"] = r.value
+            states.append(r.state)
+        else:
+            out.append((r.state.cond, r.kind + ": " + r.note, None, r.state.events, []))
+    for i, (piece, meth) in enumerate(zip(_pieces(enc, cuts), methods)):
+        fn = it.api_body("Decoder", API_FN["dec"][meth])
+        nxt = []
+        for st in states:
+            for r in it.call(fn, [Ref("g:codec"), _api_arg(piece, meth, i)], base=st):
+                if r.kind != "return":
+                    out.append((r.state.cond, r.kind + ": " + r.note, None, r.state.events, []))
+                    continue
+                f = anchor_faults(r.state.events, i)
+                if f:
+                    out.append((r.state.cond, "anchor", None, r.state.events, f))
+                elif r.value.name == "Ok":
+                    nxt.append(r.state)
+                else:
+                    out.append((r.state.cond, "err", None, r.state.events, []))
+        states = nxt
+    fin = it.api_body("Decoder", "finish")
+    for st in states:
+        for r in it.call(fin, [st.store["g:codec"]], base=st):
+            if r.kind != "return":
+                out.append((r.state.cond, r.kind + ": " + r.note, None, r.state.events, []))
+            elif r.value.name == "Ok":
+                out.append((r.state.cond, "ok", output_of(r.state.events), r.state.events, []))
+            else:
+                out.append((r.state.cond, "err", None, r.state.events, []))
+    return out
+
+
+PROD = (252, 64008)
+
+
+def windowed(L, sym, fill=0):
+    return [Sym("b%d" % i, 8) if i in sym else fill for i in range(L)]
+
+
+class ApiProduction(CodecJob):
+    """Public hcobs::Encoder / hcobs::Decoder (lib.rs wrappers, PROD_PARAMS evaluated from the MIR) against the
+    format with the documented limits 252 / 64008, including inputs that cross both chunk-size boundaries."""
+    name = "c07::public_api_production_limits[mirx]"
+    pid = "C07"
+
+    def __init__(self, tier="quick", seed=0, pid="C07", name=None):
+        CodecJob.__init__(self, tier, seed)
+        self.pid = pid
+        if name:
+            self.name = name
+
+    def configs(self):
+        quick = self.tier == "quick"
+        # short inputs, every byte symbolic
+        for L in (range(0, 5) if quick else range(0, 7)):
+            for cut in (sorted({0, L // 2}) if quick else range(0, L + 1)):
+                yield {"side": "enc", "L": L, "sym": list(range(L)), "fill": 0, "cuts": [cut], "methods": ("borrow", "copy")}
+                yield {"side": "dec", "L": L, "sym": list(range(L)), "fill": 0, "cuts": [cut], "methods": ("copy", "borrow")}
+        # first-chunk boundary: 252
+        w = [0, 1, 250, 251, 252, 253, 254] if quick else [0, 1, 2, 249, 250, 251, 252, 253, 254, 255, 256]
+        for cut in ((130,) if quick else (130, 251, 253)):
+            yield {"side": "enc", "L": 257, "sym": w, "fill": 0, "cuts": [cut], "methods": ("borrow", "copy")}
+        yield {"side": "enc", "L": 252, "sym": [250, 251], "fill": 7, "cuts": [100], "methods": ("copy", "borrow")}
+        # second chunk of exactly 253 / 506 / 254 bytes (header digits at a radix boundary)
+        for n2 in ((253,) if quick else (253, 254, 506, 505)):
+            yield {"side": "enc", "L": 252 + n2, "sym": [251, 252, 252 + n2 - 1], "fill": 7, "cuts": [252], "methods": ("copy", "borrow")}
+        # subsequent-chunk boundary: 64008 bytes after a full first chunk
+        B = 252 + 64008
+        w2 = [251, 252, B - 3, B - 2, B - 1, B, B + 1, B + 2]
+        yield {"side": "enc", "L": B + 4, "sym": w2 if not quick else w2[2:], "fill": 0, "cuts": [B - 1], "methods": ("borrow", "copy")}
+        # decoder: streams whose headers announce sizes at and around the limits
+        for h0 in (252, 251, 253):
+            # [h0] + h0 bytes + second header + a few bytes
+            L = 1 + min(h0, 252) + 2 + 3
+            yield {"side": "dec", "L": L, "sym": [1, 2, L - 5, L - 4, L - 3, L - 2, L - 1], "fill": 1, "cuts": [L - 4], "methods": ("borrow", "copy"), "fixed": {0: h0}}
+        # a short first chunk, then a two-byte header with BOTH digits symbolic and enough payload for every size up to 258
+        for h0, P in (((0, 253), (0, 254)) if quick else ((0, 252), (0, 253), (0, 254), (0, 255), (0, 506), (2, 253), (251, 253))):
+            L = 1 + h0 + 2 + P
+            yield {"side": "dec", "L": L, "sym": [h0 + 1, h0 + 2, h0 + 3, L - 1], "fill": 1, "cuts": [h0 + 2], "methods": ("copy", "borrow"), "fixed": {0: h0}}
+        for (d0, d1) in ((252, 252), (251, 252), (0, 253), (253, 0)) if not quick else ((252, 252), (0, 253)):
+            size = d0 + 253 * d1 if d0 < 253 and d1 < 253 else 0
+            L = 1 + 252 + 2 + min(size, 64008) + 3
+            fixed = {0: 252, 253: d0, 254: d1}
+            yield {"side": "dec", "L": L, "sym": [1, 2, L - 3, L - 2, L - 1], "fill": 1, "cuts": [300 if L > 300 else L // 2], "methods": ("borrow", "copy"), "fixed": fixed}
+
+    def bounds(self):
+        return ("public Encoder::{new_from_iovec,encode,encode_copy,finish} and Decoder::{new_from_iovec,decode,decode_copy,finish} with PROD_PARAMS evaluated from the MIR: every byte string of length <= 4 (quick) / 6 (thorough); "
+                "inputs of 252..64270 bytes whose bytes are symbolic in windows around offsets 0, 252 and 252+64008 and constant elsewhere; encoded streams whose size headers are 251/252/253 and (252,252)/(251,252)/(0,253)/(253,0) with symbolic payload windows")
+
+    def check(self, mod, cfg, q):
+        L, cuts, methods = cfg["L"], cfg["cuts"], cfg["methods"]
+        it, decls0 = make_interp(mod, 0)
+        data = windowed(L, set(cfg["sym"]), cfg.get("fill", 0))
+        for k, v in cfg.get("fixed", {}).items():
+            data[k] = v
+        decls = ["(declare-const b%d (_ BitVec 8))" % i for i in sorted(set(cfg["sym"]) - set(cfg.get("fixed", {}))) if i < L]
+        it.z3.close()
+        from mirx import Interp
+        it = Interp(mod, consts={"STUFF": Slice([0xFE, 0xFD], "STUFF"), "STUFF_SEQUENCE": Slice([0xFE, 0xFD], "STUFF")}, decls=decls, max_steps=400000)
+        try:
+            pp = it.named_const("PROD_PARAMS")
+            got = (pp.get("max_initial_size"), pp.get("max_subsequent_size")) if pp is not None else None
+            if cfg["side"] == "enc":
+                impl = run_encoder_api(mod, it, data, cuts, methods)
+                ref = ref_encode_cases(data, *PROD)
+            else:
+                impl = run_decoder_api(mod, it, data, cuts, methods)
+                ref = ref_decode_cases(data, *PROD)
+        finally:
+            it.z3.close()
+        tag = "%s-L%d-c%s-%s-w%s" % (cfg["side"], L, "_".join(map(str, cuts)), "".join(m[0] for m in methods), "_".join(map(str, cfg["sym"][:4])))
+        if cfg.get("fixed"):
+            tag += "-h" + "_".join(str(v) for v in cfg["fixed"].values())
+        ob, viol = [], []
+        alts = mismatch_formula([x[:4] for x in impl], ref, cfg["side"] == "enc")
+        if cfg["side"] == "enc":
+            bound = L + 1 + 2 * ((L + 64007) // 64008)
+            for ic, kind, iout, ev, _f in impl:
+                c = AND(*ic)
+                if c is False or kind != "ok" or iout is None:
+                    continue
+                bad = len(iout) > bound or max_lag(ev)[0] > 64008 + 2 or max_lag(ev)[1] > 1
+                if not bad:
+                    for i in range(len(iout) - 1):
+                        s = AND(byte_eq(iout[i], 0xFE), byte_eq(iout[i + 1], 0xFD))
+                        if s is not False:
+                            alts.append("true" if AND(c, s) is True else AND(c, s))
+                else:
+                    alts.append("true" if c is True else c)
+        if alts:
+            a, ans, model, path = q.ask("api-" + tag, decls, [mir.disj(alts)])
+        else:
+            a, model, path = "unsat", "", ""
+        ob.append(("public API %s: == format at limits 252/64008 (PROD_PARAMS in the MIR = %r)%s" % (tag, got, ", stuff-free, size bound, lag bound" if cfg["side"] == "enc" else ""), a))
+        if a == "sat":
+            mv = mir.model_values(model)
+            inp = [int(mv.get(x.term, 0)) if isinstance(x, Sym) else x for x in data]
+            if cfg["side"] == "enc":
+                exp = {"kind": "ok", "bytes": eval_ref_encode(inp, *PROD)}
+            else:
+                ok, out = eval_ref_decode(inp, *PROD)
+                exp = {"kind": "ok" if ok else "err", "bytes": out}
+            viol.append({"desc": "public %s disagrees with the format at production limits" % ("Encoder" if cfg["side"] == "enc" else "Decoder"), "side": "encode" if cfg["side"] == "enc" else "decode",
+                         "input": inp, "cuts": cuts, "methods": list(methods), "limits": list(PROD), "expected": exp, "smt2": path})
+        cov = [AND(*x[0]) for x in impl]
+        cov = ["true" if c is True else c for c in cov if c is not False]
+        a2, _, _, _ = q.ask("api-cov-" + tag, decls, ["(not %s)" % mir.disj(cov)], get_model=False) if cov else ("sat", None, "", "")
+        ob.append(("public API %s: the enumerated paths cover every input" % tag, a2))
+        return ob, viol, {"config": {k: (v if k != "sym" else v[:12]) for k, v in cfg.items()}, "implementation_paths": len(impl), "reference_cases": len(ref)}, len(impl)
+
+    def functions(self):
+        return CodecJob.functions(self) + ["hcobs::{Encoder,Decoder}::{new_from_iovec,encode,encode_copy,encode_anchored,decode,decode_copy,decode_anchored,finish} (MIR, hcobs/src/lib.rs)",
+                                           "hcobs::PROD_PARAMS, <EncoderState as Default>::default, <DecoderState as Default>::default (MIR)"]
+
+
+class Anchors(ApiProduction):
+    """C05 for the codec wrappers: bytes pushed by reference from an AnchoredSlice are always accompanied by its Anchor."""
+    name = "c05::codec_anchors[mirx]"
+
+    def __init__(self, tier="quick", seed=0):
+        ApiProduction.__init__(self, tier, seed, pid="C05", name=Anchors.name)
+
+    def configs(self):
+        quick = self.tier == "quick"
+        # pieces long enough for OwningIovec::push to keep a reference (> SMALL_COPY bytes), symbolic at both ends.
+        # First: an anchored piece of 200 bytes arriving when the iovec's own first arena chunk is nearly full (3950 bytes copied before).
+        yield {"side": "enc", "L": 4150, "sym": [0, 1, 3950, 4149], "fill": 3, "cuts": [3950], "methods": ("copy", "anchored")}
+        for L in ((300, 100) if quick else (300, 65, 100, 256, 257)):
+            yield {"side": "enc", "L": L, "sym": [0, 1, L - 2, L - 1], "fill": 3, "cuts": [L], "methods": ("anchored", "copy")}
+            yield {"side": "enc", "L": 2 * L, "sym": [0, L - 1, L, 2 * L - 1], "fill": 3, "cuts": [L], "methods": ("anchored", "anchored")}
+            yield {"side": "enc", "L": L + 2, "sym": [0, 1, 2, L + 1], "fill": 3, "cuts": [2], "methods": ("copy", "anchored")}
+        # decoder: a chunk of h0 bytes (pushed by reference) followed by a symbolic header, so that the error paths are taken after the push
+        yield {"side": "dec", "L": 1 + 252 + 2 + 300 + 2, "sym": [1, 2, 255, 256, 555, 556], "fill": 3, "cuts": [557], "methods": ("anchored", "copy"), "fixed": {0: 252, 253: 300 % 253, 254: 300 // 253}}
+        for h0 in ((252, 100) if quick else (252, 65, 100, 200)):
+            L = 1 + h0 + 4
+            yield {"side": "dec", "L": L, "sym": [1, 2, h0 + 1, h0 + 2, h0 + 3, h0 + 4], "fill": 3, "cuts": [L], "methods": ("anchored", "copy"), "fixed": {0: h0}}
+            yield {"side": "dec", "L": L, "sym": [1, h0 + 1, h0 + 2, h0 + 3], "fill": 3, "cuts": [h0 + 2], "methods": ("anchored", "anchored"), "fixed": {0: h0}}
+        for side in ("enc", "dec"):
+            for L in (range(0, 4) if quick else range(0, 6)):
+                for cut in range(0, L + 1):
+                    for ms in (("anchored", "copy"), ("copy", "anchored"), ("anchored", "anchored")):
+                        yield {"side": side, "L": L, "sym": list(range(L)), "cuts": [cut], "methods": ms}
+
+    def bounds(self):
+        return ("public Encoder::encode_anchored / Decoder::decode_anchored (MIR): every byte string of length <= 3 (quick) / 5 (thorough), every cut, anchored first / second / both pieces; anchored pieces of 65..600 bytes (symbolic at both ends) and encoded streams with a 65..252-byte chunk followed by a symbolic header: "
+                "on every path (including decode errors) a piece with more than SMALL_COPY (read from owning_iovec's MIR) bytes pushed by reference has its Anchor handed to OwningIovec::push_anchor and never dropped")
+
+    def check(self, mod, cfg, q):
+        L, cuts, methods = cfg["L"], cfg["cuts"], cfg["methods"]
+        data = windowed(L, set(cfg["sym"]), cfg.get("fill", 0))
+        for k, v in cfg.get("fixed", {}).items():
+            data[k] = v
+        decls = ["(declare-const b%d (_ BitVec 8))" % i for i in sorted(set(cfg["sym"]) - set(cfg.get("fixed", {}))) if i < L]
+        from mirx import Interp
+        it = Interp(mod, consts={"STUFF": Slice([0xFE, 0xFD], "STUFF"), "STUFF_SEQUENCE": Slice([0xFE, 0xFD], "STUFF")}, decls=decls, max_steps=400000)
+        try:
+            impl = (run_encoder_api if cfg["side"] == "enc" else run_decoder_api)(mod, it, data, cuts, methods)
+            ref = ref_encode_cases(data, *PROD) if cfg["side"] == "enc" else ref_decode_cases(data, *PROD)
+        finally:
+            it.z3.close()
+        tag = "%s-L%d-c%s-%s" % (cfg["side"], L, "_".join(map(str, cuts)), "".join(m[0] for m in methods))
+        ob, viol = [], []
+        alts = []
+        for ic, kind, _o, _e, faults in impl:
+            c = AND(*ic)
+            if c is False:
+                continue
+            if kind == "anchor" or kind not in ("ok", "err"):
+                alts.append("true" if c is True else c)
+        alts += mismatch_formula([x[:4] for x in impl if x[1] in ("ok", "err")], ref, cfg["side"] == "enc")
+        if alts:
+            a, ans, model, path = q.ask("anch-" + tag, decls, [mir.disj(alts)])
+        else:
+            a, model, path = "unsat", "", ""
+        ob.append(("anchors %s: borrowed bytes always travel with their anchor; output == format" % tag, a))
+        if a == "sat":
+            mv = mir.model_values(model)
+            inp = [int(mv.get(x.term, 0)) if isinstance(x, Sym) else x for x in data]
+            viol.append({"desc": "bytes borrowed from an AnchoredSlice are exposed without their Anchor", "side": "anchors-" + cfg["side"], "input": inp, "cuts": cuts, "methods": list(methods),
+                         "limits": list(PROD), "expected": {"kind": "err", "bytes": []}, "smt2": path})
+        cov = [AND(*x[0]) for x in impl]
+        cov = ["true" if c is True else c for c in cov if c is not False]
+        a2, _, _, _ = q.ask("anch-cov-" + tag, decls, ["(not %s)" % mir.disj(cov)], get_model=False) if cov else ("sat", None, "", "")
+        ob.append(("anchors %s: the enumerated paths cover every input" % tag, a2))
+        return ob, viol, {"config": {k: (v if k != "sym" else v[:12]) for k, v in cfg.items()}, "implementation_paths": len(impl)}, len(impl)
